@@ -1534,6 +1534,15 @@ class StarterModel(Starter):
     # used to store the result
     process_list: List[ProcessStatus] = None
 
+    def after(self, application_job: ApplicationStartJobs) -> None:
+        """ A prediction has no effect on the real applications: the pending application stop
+        (STOP starting failure strategy) is NOT forwarded to the Stopper.
+
+        :param application_job: the application starter
+        :return: None
+        """
+        application_job.stop_request = False
+
     def test_start_application(self, strategy: StartingStrategies, application: ApplicationStatus) -> PayloadList:
         """ Model the application starting, without sending any extern message and return the predicted distribution.
 
